@@ -218,6 +218,18 @@ def rule_flatten(ctx):
             if e.a[2] or e.a[3]:
                 ctx.violated('R1', fl, e.node, 'ravel must use C order (no arguments)', node=e.node)
                 okr = False
+    # the table of label tuples is an ndarray: built without dtype=object it takes NumPy's common type, so members of different kinds ("axes of different
+    # kinds") are coerced - (1950, 'b') becomes ('1950', 'b'), (1, 0.5) becomes (1.0, 0.5), True becomes 1.0
+    tab = [e for p in ev.paths for e in p.calls('array') if T.dotted(e.a[1]) in ('np.array', 'np.asarray') and any(x[0] == 'call' and T.dotted(x[1]) == 'zip' for x in T.subterms(e.a))]
+    if tab:
+        dt = T.kw(tab[0].a, 'dtype')
+        keeps = dt is not None and (dt in (('name', 'object'), const('O'), const('object')) or (dt[0] == 'ifexp' and ('name', 'object') in (dt[2], dt[3])))
+        if keeps:
+            ctx.holds('R1', '_flatten: label tuples kept as objects when the member kinds differ')
+        else:
+            ctx.violated('R1', fl, 'label tuples coerced to a common dtype', 'the grouped labels are gathered with np.array(list(zip(...))) without dtype=object: member labels of different kinds '
+                         'are converted to NumPy\'s common type, so the grouped entry for (1950, \'b\') is (\'1950\', \'b\') - not the combination of the member-axis labels', node=tab[0].node)
+            okm = None
     if okm and okr:
         ctx.holds('R1', "_flatten: meshgrid(indexing='ij') + C-order ravel")
     elif okm is False:
